@@ -516,7 +516,21 @@ func registerNatives(P *Program) {
 		}
 		return strings.Join(parts, sep)
 	}
-	reg("fmt.Sprintf", func(fr *frame, a []value) value { return sprintf(fr.m, a) })
+	reg("fmt.Sprintf", func(fr *frame, a []value) value {
+		m := fr.m
+		m.pendingSym = nil
+		out := sprintf(m, a)
+		if m.pendingSym != nil && strings.Contains(out, "\x00SYMDEC\x00") {
+			parts := strings.SplitN(out, "\x00SYMDEC\x00", 2)
+			var bs []*Term
+			bs = append(bs, m.strBytes(parts[0])...)
+			bs = append(bs, m.pendingSym...)
+			bs = append(bs, m.strBytes(parts[1])...)
+			m.pendingSym = nil
+			return m.mkString(bs)
+		}
+		return out
+	})
 	reg("fmt.Sprint", func(fr *frame, a []value) value { return sprint(fr.m, a[0].([]value), " ") })
 	reg("fmt.Sprintln", func(fr *frame, a []value) value { return sprint(fr.m, a[0].([]value), " ") + "\n" })
 	reg("fmt.Errorf", func(fr *frame, a []value) value { return fr.m.newError(sprintf(fr.m, a)) })
@@ -654,6 +668,41 @@ func (m *Machine) panicString(tp targetPanic) string {
 	return fmt.Sprintf("panic %T", tp.v)
 }
 
+// symDecimal renders a symbolic integer in decimal: the number of digits is decided by
+// branching on the magnitude, the digits are div/rem terms.
+func (m *Machine) symDecimal(t *Term, signed bool) []*Term {
+	tt := m.tt
+	u := tt.ZExt(t, 64)
+	var out []*Term
+	if signed {
+		s := tt.SExt(t, 64)
+		if m.branch(tt.Bin(OpSLt, s, tt.Const(BV(64), 0)), "decimal sign") {
+			out = append(out, tt.Const(BV(8), '-'))
+			u = tt.Neg(s)
+		} else {
+			u = s
+		}
+	}
+	pow := uint64(10)
+	k := 1
+	for ; k < 20; k++ {
+		if m.branch(tt.Bin(OpULt, u, tt.Const(BV(64), pow)), "decimal digits") {
+			break
+		}
+		pow *= 10
+	}
+	div := uint64(1)
+	for i := 1; i < k; i++ {
+		div *= 10
+	}
+	for i := 0; i < k; i++ {
+		d := tt.Bin(OpURem, tt.Bin(OpUDiv, u, tt.Const(BV(64), div)), tt.Const(BV(64), 10))
+		out = append(out, tt.Bin(OpAdd, tt.Extract(d, 7, 0), tt.Const(BV(8), '0')))
+		div /= 10
+	}
+	return out
+}
+
 func (m *Machine) newError(msg string) value {
 	errs := m.P.byPath["errors"]
 	ty := errs.Type("errorString").Type()
@@ -754,6 +803,13 @@ func (m *Machine) formatValue(v value, verb byte) string {
 				if s, ok := m.tryCallString(f, v.v); ok {
 					return s
 				}
+			}
+		}
+		if b, ok := v.t.Underlying().(*types.Basic); ok && b.Info()&types.IsInteger != 0 && (verb == 'd' || verb == 'v') {
+			if t, ok := v.v.(*Term); ok && !t.IsConst() {
+				// the caller wants a Go string; symbolic decimal digits are carried out of band
+				m.pendingSym = m.symDecimal(t, b.Info()&types.IsUnsigned == 0)
+				return "\x00SYMDEC\x00"
 			}
 		}
 		if b, ok := v.t.Underlying().(*types.Basic); ok && b.Info()&types.IsInteger != 0 {
